@@ -244,7 +244,9 @@ func (g *gen) aplItem() map[string]interface{} {
 	if g.r.Intn(3) == 0 { // zero octets inside the prefix
 		addr[g.r.Intn(n)] = 0
 	}
-	maskBeyond(addr, prefix)
+	if g.r.Intn(2) == 0 { // else: host bits stay set, the packer has to mask them
+		maskBeyond(addr, prefix)
+	}
 	return map[string]interface{}{"fam": fam, "neg": g.r.Intn(2) == 0, "prefix": prefix, "addr": addr}
 }
 
@@ -262,7 +264,9 @@ func (g *gen) subFields(es []wire.Entry) map[string]interface{} {
 				mask = 8 * n
 			}
 			addr := g.wide(n)
-			maskBeyond(addr, mask)
+			if g.r.Intn(2) == 0 { // else: host bits stay set, the packer has to mask them
+				maskBeyond(addr, mask)
+			}
 			f["Family"], f[e.Sz], f["SourceScope"], f[e.N] = fam, mask, g.r.Intn(8*n+1), addr
 			return f
 		}
@@ -502,6 +506,48 @@ func (g *gen) anyType() int {
 			return t
 		}
 	}
+}
+
+// straddle: a message whose second record starts a little below offset 16384 (a TXT record pads up to
+// there), followed by records with related names: their names cross the limit pointers can reach.
+func (g *gen) straddle() *wire.Msg {
+	g.pool, g.exotic = nil, false
+	m := &wire.Msg{}
+	m.Hdr.Id, m.Hdr.Qr = g.u(16), true
+	q := g.question()
+	m.Q = []wire.Q{q}
+	padOwner := g.name()
+	qn := make([][]int, len(q.Name))
+	for i, l := range q.Name {
+		qn[i] = l
+	}
+	base := 12 + wireLen(qn) + 4 + wireLen(padOwner) + 10
+	n := 16384 + 12 - g.r.Intn(90) - base // RDATA octets of the pad record
+	txt := [][]int{}
+	for n > 0 {
+		k := 256
+		if n < k {
+			k = n
+		}
+		s := make([]int, k-1)
+		for i := range s {
+			s[i] = 'A' + i%26
+		}
+		txt = append(txt, s)
+		n -= k
+	}
+	pad := wire.RR{Type: 16, Class: 1, Ttl: hx.B{0, 0, 0, 60}, F: wire.Fields{"Txt": txt}}
+	for _, l := range padOwner {
+		pad.Name = append(pad.Name, hx.B(l))
+	}
+	m.An = append(m.An, pad)
+	for i := 2 + g.r.Intn(4); i > 0; i-- {
+		m.An = append(m.An, g.rr(g.anyType()))
+	}
+	for i := g.r.Intn(3); i > 0; i-- {
+		m.Ns = append(m.Ns, g.rr(g.anyType()))
+	}
+	return wire.Normalize(m)
 }
 
 func (g *gen) question() wire.Q {
